@@ -1,6 +1,7 @@
 package c11
 
 import (
+	"sync"
 	"errors"
 	"fmt"
 	"reflect"
@@ -41,6 +42,7 @@ type inst[T any] struct {
 	ref    func(a, b T) T // nil if the name promises nothing
 	refE   func() T
 	noAsso bool // floats: associativity not demanded
+	noConc bool // the instance's values are only observable through a single-threaded harness device (task queue)
 }
 
 func mk[T any](name string, m fp.Monoid[T], gen *rapid.Generator[T], eq func(a, b T) bool, show func(T) string, ref func(a, b T) T, refE func() T) inst[T] {
@@ -96,6 +98,55 @@ func runLaws[T any](t *testing.T, in inst[T]) {
 			}
 			if in.refE != nil && !in.eq(e, in.refE()) {
 				rec.Failf(rt, "C11|"+in.name+"|identity", "Empty = %s, the name promises %s", in.show(e), in.show(in.refE()))
+			}
+		})
+	}
+	if !in.noConc {
+		// The instance is a shared value: Combine must give the same results when several goroutines use
+		// it at once. Real goroutines: a miss proves nothing, a mismatch with the sequential results is a
+		// violation. Operands are read-only here (Combine must not write to them: property C04).
+		kit.Check(t, in.name+"/concurrent", "3 pairs (a,b); Combine(a,b) computed sequentially, then G in 2..8 goroutines released together recompute the combinations 100 times each in rotating order; every result must equal the sequential one; non-trivial iff G >= 4; distinct by (G, printed pairs)", kit.Opt{Weight: 0.1}, func(rt *rapid.T, rec *kit.Rec) {
+			G := rapid.IntRange(2, 8).Draw(rt, "G")
+			const n = 3
+			var as, bs, want [n]T
+			desc := ""
+			for i := 0; i < n; i++ {
+				as[i], bs[i] = in.gen.Draw(rt, "a"), in.gen.Draw(rt, "b")
+				desc += in.show(as[i]) + "+" + in.show(bs[i]) + " ; "
+			}
+			rec.Case(G >= 4, fmt.Sprintf("G=%d %s", G, desc))
+			rec.Guard(rt, "C11|"+in.name+"|concurrent", func() {
+				for i := 0; i < n; i++ {
+					want[i] = in.sg.Combine(as[i], bs[i])
+				}
+			})
+			bad := make([]string, G)
+			start := make(chan struct{})
+			var wg sync.WaitGroup
+			for g := 0; g < G; g++ {
+				wg.Add(1)
+				go func(g int) {
+					defer wg.Done()
+					defer func() {
+						if r := recover(); r != nil && bad[g] == "" {
+							bad[g] = fmt.Sprintf("goroutine %d panicked: %v", g, r)
+						}
+					}()
+					<-start
+					for k := 0; k < 100; k++ {
+						i := (g + k) % n
+						if got := in.sg.Combine(as[i], bs[i]); !in.eq(got, want[i]) && bad[g] == "" {
+							bad[g] = fmt.Sprintf("goroutine %d of %d: Combine(%s,%s) = %s while other goroutines were combining; sequentially %s", g, G, in.show(as[i]), in.show(bs[i]), in.show(got), in.show(want[i]))
+						}
+					}
+				}(g)
+			}
+			close(start)
+			wg.Wait()
+			for _, m := range bad {
+				if m != "" {
+					rec.Failf(rt, "C11|"+in.name+"|concurrent", "%s", m)
+				}
 			}
 		})
 	}
